@@ -138,7 +138,8 @@ fn cfg_from(args: &Args) -> GenCfg {
     let mut cfg = GenCfg::default();
     if let Some(k) = args.kv.get("kinds") {
         // a kind may be repeated to give it more weight
-        let all = GenCfg::default().kinds;
+        let mut all = GenCfg::default().kinds;
+        all.push("implstate"); // only on request
         cfg.kinds = k.split(',').filter_map(|y| all.iter().copied().find(|x| *x == y)).collect();
     }
     if let Some(v) = args.kv.get("maxvars") {
@@ -475,7 +476,8 @@ fn mode_probe(args: &Args) {
             continue;
         }
         let mut r = Rng(case_seed);
-        let m = gen_model(&mut r, &cfg);
+        let cumul_only = cfg.kinds.iter().all(|k| *k == "cumul");
+        let m = if cumul_only && r.chance(3, 4) { model::gen_model_sched(&mut r, &cfg) } else { gen_model(&mut r, &cfg) };
         let mut setup = Setup::random(&mut r);
         setup.opts.resolver_uip = true;
         let id = format!("{}-{}", args.seed, i);
